@@ -44,6 +44,11 @@ type gen struct {
 	impls    map[reflect.Type][]reflect.Type
 	// registered types whose only form assignable to some interface is the non-preferred one
 	encodeOnly map[string]bool
+	// ladder.go caches
+	paths  map[reflect.Type][]ifPath
+	lg     *ladderGraph
+	nondef map[reflect.Type]reflect.Value
+	limit  int // depth at which the reflect decoder starts rejecting a chain (0 unknown, -1 none found)
 }
 
 var (
